@@ -31,6 +31,8 @@ def run(chk):
     plan = [
         dict(flavour="asan-ubsan", scen="glob", runs=(260, 8000), opts={"cb": 1, "globalDomain": 1, "varyScale": 10, "zeroAreaMovable": 1, "maxMovable": 14}),
         dict(flavour="rel", scen="glob", runs=(260, 8000), opts={"cb": 1, "globalDomain": 1, "varyScale": 10, "zeroAreaMovable": 1, "maxMovable": 20, "maxNets": 20}),
+        # tiny cells: rows one unit high, sparse, many fixed cells and pads (total movable area comparable to the number of cells)
+        dict(flavour="rel", scen="glob", runs=(200, 6000), opts={"cb": 1, "globalDomain": 1, "unitRows": 1, "utilHi": 0.12, "maxFixed": 10, "zeroAreaMovable": 1}),
     ]
     run_plan(chk, "C06", plan, nontrivial)
     chk.cov["rule"] = ("placeGlobal executions with a recording callback on seeded random circuits of the C06 domain (>= 1 free segment wider than twice the side "
